@@ -141,6 +141,75 @@ def ipIter (m : Model) (τ : Rat) (prune : List Vec → List Vec) : Nat → List
   | 0 => [vzero m.S]
   | h+1 => ipStep m τ prune (ipIter m τ prune h)
 
+/-! ## IncrementalPruning's merge schedule AS WRITTEN (the "reverse binary tree" loop with front/back/stepsize/diff)
+
+  `ipSchedule O` replays the index arithmetic of the C++ loop and returns the sequence of merges `(i, i+diff)` it performs and the
+  slot `front` where the result ends up.  `ipRun` applies those merges to the slots (cross-sum + prune after each), `symRun` applies
+  them to sets of observation indices; `scheduleOK O` says the final slot has collected every observation exactly once. -/
+
+structure IpSched where
+  front : Int
+  back : Int
+  stepsize : Int
+  diff : Int
+  elements : Nat
+  oddOld : Bool
+
+/-- `for ( i = front; i != back; i += stepsize ) { merge(i, i+diff); --elements; }` (fuel = elements: each pass decrements it) -/
+def ipInner (back stepsize diff : Int) : Nat → Int → Nat → List (Nat × Nat) × Nat
+  | 0, _, el => ([], el)
+  | f+1, i, el =>
+    if i = back then ([], el)
+    else
+      let r := ipInner back stepsize diff f (i + stepsize) (el - 1)
+      ((i.toNat, (i + diff).toNat) :: r.1, r.2)
+
+/-- `while ( elements > 1 ) { … }` -/
+def ipOuter : Nat → IpSched → List (Nat × Nat) × Int
+  | 0, st => ([], st.front)
+  | f+1, st =>
+    if st.elements ≤ 1 then ([], st.front)
+    else
+      let r := ipInner st.back st.stepsize st.diff st.elements st.front st.elements
+      let oddNew := r.2 % 2 == 1
+      let st' : IpSched :=
+        { front := st.back - (if st.oddOld then 0 else st.stepsize),
+          back := st.front - (if oddNew then 0 else st.stepsize),
+          stepsize := st.stepsize * (-2), diff := st.diff * (-2), elements := r.2, oddOld := oddNew }
+      let r2 := ipOuter f st'
+      (r.1 ++ r2.1, r2.2)
+
+def ipSchedule (O : Nat) : List (Nat × Nat) × Nat :=
+  let odd := O % 2 == 1
+  let r := ipOuter O ⟨0, (O : Int) - (if odd then 1 else 0), 2, 1, O, odd⟩
+  (r.1, r.2.toNat)
+
+def updSlot {α : Type} (f : Nat → α) (i : Nat) (v : α) : Nat → α := fun j => if j = i then v else f j
+
+/-- `projs[a][i] = prune(crossSum(projs[a][i], projs[a][i+diff]))` for every scheduled merge -/
+def ipRun (n : Nat) (prune : List Vec → List Vec) : List (Nat × Nat) → (Nat → List Vec) → (Nat → List Vec)
+  | [], sl => sl
+  | (d, s) :: ms, sl => ipRun n prune ms (updSlot sl d (prune (crossSum n (sl d) (sl s))))
+
+def symRun : List (Nat × Nat) → (Nat → List Nat) → (Nat → List Nat)
+  | [], sl => sl
+  | (d, s) :: ms, sl => symRun ms (updSlot sl d (sl d ++ sl s))
+
+/-- the per-action part of `IncrementalPruning::operator()` as written: prune every projected list, run the schedule, take slot `front` -/
+def ipActionW (n : Nat) (prune : List Vec → List Vec) (O : Nat) (P : Nat → List Vec) : List Vec :=
+  ipRun n prune (ipSchedule O).1 (fun o => prune (P o)) (ipSchedule O).2
+
+/-- decidable: the schedule for `O` observations gathers each observation index exactly once in the final slot -/
+def scheduleOK (O : Nat) : Bool :=
+  (symRun (ipSchedule O).1 (fun o => [o]) (ipSchedule O).2).isPerm (List.range O)
+
+def ipStepW (m : Model) (τ : Rat) (prune : List Vec → List Vec) (Γ : List Vec) : List Vec :=
+  prune (unionTo m.A (fun a => ipActionW m.S prune m.O (projList m τ Γ a)))
+
+def ipIterW (m : Model) (τ : Rat) (prune : List Vec → List Vec) : Nat → List Vec
+  | 0 => [vzero m.S]
+  | h+1 => ipStepW m τ prune (ipIterW m τ prune h)
+
 /-! ## crossSumBestAtBelief (used by Witness and LinearSupport to build the support vector of a belief) -/
 
 /-- first element of `l` with the largest `b·α` (value part of `findBestAtPoint`; ties between *different* vectors are broken by
